@@ -98,22 +98,6 @@ example : parseUint 32 [0x2b#8, 0x35#8] = none := by decide           -- ParseUi
 
 /-! ## enums -/
 
-theorem find_key {α β : Type} [DecidableEq β] (key : α → β) (l : List α) (a : α) (hm : a ∈ l)
-    (hd : l.Pairwise (fun x y => key x ≠ key y)) : l.find? (fun x => key x = key a) = some a := by
-  induction l with
-  | nil => cases hm
-  | cons x xs ih =>
-    rw [List.find?_cons]
-    by_cases hx : key x = key a
-    · simp only [hx, decide_true]
-      rcases List.mem_cons.1 hm with rfl | h
-      · rfl
-      · exact absurd hx ((List.pairwise_cons.1 hd).1 a h)
-    · simp only [hx, decide_false]
-      rcases List.mem_cons.1 hm with rfl | h
-      · exact absurd rfl hx
-      · exact ih h (List.pairwise_cons.1 hd).2
-
 /-- Descriptor format: the name printed for a value of the enum is resolved to that same value
 (aliases, i.e. equal numbers, are allowed: names are what must be distinct). -/
 theorem enum_roundtrip_descriptor (fc : FloatCodec) (evs : List EnumValue) (ev : EnumValue) (v : Value)
@@ -190,6 +174,15 @@ theorem double_roundtrip (fc : FloatCodec) (h : fc.Law64) (b : BitVec 64) (f : F
     refine ⟨fc.format64 b, b, by simp [marshalFloat, h1, h2, h3], ?_, by simp [Value.same]⟩
     simp [parseFloatText, hns.1, hns.2.1, hns.2.2, h.roundtrip b hfin]
 
+/-- the model's conversions are coherent: `float32(float64(x)) == x` for every finite float32 -/
+theorem narrow_widen_finite (b : BitVec 32) (h : isFinite32 b = true) : narrow (widen b) = b :=
+  narrow_widen b h
+
+/-- the float hypotheses are satisfiable (even with `bad` empty) by a codec that is not strconv:
+the decimal text of the bit pattern -/
+example : ∃ fc : FloatCodec, fc.Law64 ∧ fc.Law32Via64 (fun _ => False) ∧ fc.Law32 :=
+  ⟨exampleCodec, exampleCodec_laws⟩
+
 /-- the three non-finite classes of float32 -/
 theorem float_nonfinite (fc : FloatCodec) (b : BitVec 32) (hnf : isFinite32 b = false) (f : Format)
     (evs : List EnumValue) :
@@ -251,10 +244,6 @@ theorem float_roundtrip_fixed (fc : FloatCodec) (h : fc.Law32) (b : BitVec 32) (
       simp [unmarshalFixed, hns.1, hns.2.1, hns.2.2, h.roundtrip b hfin, hd]
   · obtain ⟨s, b', h1, _, h3, h4⟩ := float_nonfinite fc b (by simpa using hfin) f evs
     exact ⟨s, b', h1, h3, h4⟩
-
-/-- "7.038531e-26" -/
-def witnessText : List Byte :=
-  [0x37#8, 0x2e#8, 0x30#8, 0x33#8, 0x38#8, 0x35#8, 0x33#8, 0x31#8, 0x65#8, 0x2d#8, 0x32#8, 0x36#8]
 
 /-- NEGATION of the full float32 statement on the concrete witness `0x15AE43FD`: with the two facts about
 Go's strconv that the harness checks (`FormatFloat(float64(x),'g',-1,32) = "7.038531e-26"`,
